@@ -11,6 +11,7 @@ Extraction "model.ml"
   wiring_ok_c03 decls_ok frame_wiring_ok unmarshal_wiring_ok resolve_stmt resolve_ustmt demanded_body demanded_unmarshal
   wiring_ok_c10 reset_wiring_ok setters_wiring_ok getters_wiring_ok resolve_reset resolve_setter resolve_getter
   demanded_reset demanded_setters demanded_getters rstmt_eqb rsetter_eqb rgetter_eqb setter_side_ok
+  nodes_wiring_ok nodegen_ok has_send_type enum_fields_ok
   enums_ok signal_enum_ok has_custom_type enum_type_name
   package_wiring_ok_c03 package_wiring_ok_c10 dispatch_ok find_wiring nodes_ok no_extra_types
   super_conv field_conv mstmt_eqb ustmt_eqb frame_side_ok guard_side_ok fields_ok descs_ok
